@@ -17,7 +17,7 @@ from vlib.gen import project as P
 ID = "C01"
 LEVEL = "exploration"
 RULE = (
-    "Projects of 1..7 covered files (27 comment styles, single-line or block headers, binary files, names with spaces / non-ASCII, sub-directories) "
+    "Projects of 1..7 covered files (27 comment styles, single-line or block headers, binary files, names with spaces / non-ASCII, sub-directories; the project directory itself is sometimes called 'pro[1]j*') "
     "whose information comes from headers, .license siblings, REUSE.toml tables (override / aggregate / closest, with a '**' fallback table) or dep5 "
     "paragraphs, LICENSES/ holding exactly the used identifiers, plus noise that must not be reported (LICENSE files, empty files, symlinks, SPDX "
     "documents, git-ignored files), with and without Git; then 0..4 defects from {strip copyright, strip licence, drop licence text, unused text, junk "
@@ -73,7 +73,9 @@ def compare(ctx, state, root, res, data, exp, what="lint --json"):
 def check(ctx, c):
     state, mp = c
     exp = FP.model(state)
-    root = ctx.fresh_dir()
+    # the project directory's own name sometimes holds characters that are special to glob
+    root = ctx.fresh_dir() / ("pro[1]j*" if len(state["files"]) % 3 == 0 else "p")
+    root.mkdir()
     try:
         FP.materialise(root, state)
         res, data = tree.lint_json(root, mp=mp)
@@ -94,7 +96,7 @@ def check(ctx, c):
             ctx.fail(state, f"lint --json failed: {res.brief()}")
         compare(ctx, state, root, res, data, exp)
     finally:
-        tree.rmtree(root)
+        tree.rmtree(root.parent)
 
 
 def replay(ctx, c):
